@@ -147,6 +147,23 @@ def c04(pid, tier, t0):
         "marks are not part of the compared state"])
 
 
+@check("C05")
+def c05(pid, tier, t0):
+    exe = nv.build_harness("c05_safety", os.environ.get("C05_VARIANT", "asan"), ["c05_safety.c"], wraps=WRAPS)
+    res = nv.run_shards(exe, ["tier=" + tier, "deadline=%d" % dl(tier)], nv.NCPU, dl(tier) + 180)
+    res.stats["distinct_nontrivial"] = res.stats.get("leaves", 0) + res.stats.get("stream_executions", 0)
+    return nv.finish(pid, tier, t0, res, {
+        "rule": "(i) all sequences of <= depth tokens over the vi token alphabet (motions, operators with and without motion, counts, register prefixes, inserts with editing keys, "
+                "repeat/macro/undo, scrolls, window and buffer commands, a menu of well-formed/truncated/nonsensical ex lines incl. 510..700-byte lines and nested :g) and over the ex-line "
+                "alphabet, from configurations {empty, ASCII, 30 lines, UTF-8 mix with wide/combining/RTL, 300-char line} x windows {24x80, 2x2, 3x10, 8x40} x option sets; "
+                "(ii) 8 base sessions with every single (thorough: also double) token substitution/deletion/insertion; distinct_nontrivial = complete executions that ran to the quit",
+        "depth_bound": 2 if tier == "quick" else 3,
+        "deviation_bound": 1 if tier == "quick" else 2,
+        "explanation": "AddressSanitizer(+bounds) build of the real editor; a sanitizer report or signal, a non-zero exit, no return to the quit within the horizon, or asking for input after the quit are violations",
+    }, ["typed text and patterns are valid UTF-8; ^Z, :make, :rk and the ECMD script are not in the alphabet; filters are deterministic shell commands",
+        "bounded time = the per-operation horizon (20 s), far above the microseconds-to-milliseconds a command takes"])
+
+
 def replay(path):
     print("replay artefact:")
     print(open(path).read())
